@@ -52,9 +52,59 @@ def sequences(ctx, r):
         yield ver, out
 
 
+def gen_small(ctx, module, cfg, workers):
+    return ctx.tlc(module, cfg, timeout=1500, workers=workers)
+
+
+def join_selection(r):
+    """CheckerSel_gen: pool record per version + compact (scenario, provider) records -> full records for c09sel."""
+    pools = {x["ver"]: x["selpool"] for x in r.records if "selpool" in x}
+    out = []
+    for x in r.records:
+        if "selpool" in x:
+            continue
+        if x["ver"] not in pools:
+            raise MachineryError("CheckerSel_gen emitted no pool for version %s" % x["ver"])
+        s = pools[x["ver"]][x["n"] - 1]
+        if s["n"] != x["n"]:
+            raise MachineryError("selection pool of version %s is not in index order" % x["ver"])
+        out.append(dict(x, st=s["st"], ev=s["ev"]))
+    return out
+
+
+def join_batches(r):
+    """CheckerBatch_gen: template pool per version + compact batch records -> full records for c09batch."""
+    pools = {x["ver"]: x["tpool"] for x in r.records if "tpool" in x}
+    out = []
+    for x in r.records:
+        if "tpool" in x:
+            continue
+        if x["ver"] not in pools:
+            raise MachineryError("CheckerBatch_gen emitted no pool for version %s" % x["ver"])
+        pool = pools[x["ver"]]
+        items = []
+        for it in x["items"]:
+            t = pool[it["t"] - 1]
+            if t["n"] != it["t"]:
+                raise MachineryError("template pool of version %s is not in index order" % x["ver"])
+            items.append({"t": it["t"], "how": it["how"], "ev": t["ev"],
+                          "view": t["alt"][x["focus"]] if it["how"] == "alt" else t["st"]})
+        out.append({"ver": x["ver"], "focus": x["focus"], "items": items, "want": x["want"],
+                    "pst": pool[x["items"][0]["t"] - 1]["st"]})
+    return out
+
+
+def expect_refuted(ctx, module, cfg, invariant, why):
+    bad = ctx.tlc(module, cfg, timeout=600, workers=2, allow_violation=True, expect_records=False)
+    if bad.violated != invariant:
+        raise MachineryError("%s with %s should violate %s (%s), got %r" % (module, cfg, invariant, why, bad.violated))
+
+
 def run(ctx):
     ctx.repro_attempts = 6   # order- and schedule-dependent misbehaviour is retried in fresh processes
     ctx.assumptions += ["in-package access to allowerContext through the build-time overlay accessor VerifChecker",
+                        "in-package access to stateResolverV2.authAndApplyEvents through the overlay accessor VerifAuthAndApplyBatch "
+                        "(a resolver set up as ResolveStateConflictsV2 sets it up)",
                         "pseudo-ID rooms: sender keys are ed25519 public keys derived from fixed seeds; the caller's "
                         "UserIDForSender knows exactly these keys; mxid_mapping signatures are not verified by the auth rules"]
     ctx.exhaustive = True
@@ -62,10 +112,20 @@ def run(ctx):
                          "IDs; natural IDs + PDU.Redact() where a redacted power-levels / join-rules copy occurs; sender keys "
                          "in the pseudo-ID version); plus metamorphic variants of every scenario of the Auth_gen families "
                          "member_self, member_restricted, member_other, member_tpi, generic, structure, pl0, create, the "
-                         "pseudo-ID version realised with sender keys")
+                         "pseudo-ID version realised with sender keys (incl. padding with same-type-other-state-key events before / "
+                         "after / between, AddAuthEvents over the full / needed / needed-without-create state); every operation "
+                         "history (AddEvent / Clear / NewAuthEvents list) of length MaxOps over the 17-event universe of "
+                         "CheckerProv.tla; every (scenario, held subset) of CheckerSel.tla; every batch (focus, items x how) of "
+                         "CheckerBatch.tla through authAndApplyEvents")
     # the Auth_gen families are independent TLC runs: a few at a time, next to the sequence run
     ctx._spec_dir()   # create the scratch copy of spec/ before the threads start
-    with ThreadPoolExecutor(max_workers=4) as ex:
+    ctx.harness_build()   # ... and the harness binary
+    with ThreadPoolExecutor(max_workers=5) as ex:
+        # code -> spec: recorded and validated (one TLC worker) next to the generation runs
+        sessions = ex.submit(record_sessions, ctx, 6000 if ctx.tier == "quick" else 80000)
+        batr = ex.submit(gen_small, ctx, "CheckerBatch_gen", "CheckerBatch_gen_%s.cfg" % ctx.tier, max(2, ctx.workers // 4))
+        prov = ex.submit(gen_small, ctx, "CheckerProv_gen", "CheckerProv_gen_%s.cfg" % ctx.tier, 2)
+        selr = ex.submit(gen_small, ctx, "CheckerSel_gen", "CheckerSel_gen_%s.cfg" % ctx.tier, 2)
         fams = [ex.submit(gen_family, ctx, fam, max(2, ctx.workers // 4)) for fam in FAMILIES]
         r = ctx.tlc("Checker_gen", "Checker_gen_%s.cfg" % ctx.tier, timeout=1500, workers=max(2, ctx.workers // 2))
         if ctx.tier == "thorough":
@@ -75,6 +135,16 @@ def run(ctx):
             if bad.violated != "Coherent":
                 raise MachineryError("Checker.tla with CacheKey = \"eventid\" should violate Coherent (the pool no longer "
                                      "tells event IDs from event objects), got %r" % bad.violated)
+            # ... and likewise the faults the three new models are there to tell from the design
+            expect_refuted(ctx, "CheckerProv_gen", "CheckerProv_gen_bytype.cfg", "ReadsLastAdd",
+                           "create / power levels / join rules kept to hand by type alone")
+            expect_refuted(ctx, "CheckerProv_gen", "CheckerProv_gen_everroom.cfg", "ValidHeld", "Valid() over every room ever seen")
+            expect_refuted(ctx, "CheckerSel_gen", "CheckerSel_gen_stripfirst.cfg", "Exactly", "the first reference dropped for the create event")
+            expect_refuted(ctx, "CheckerBatch_gen", "CheckerBatch_gen_clearonce.cfg", "BatchCoherent", "provider emptied once per batch")
+        # the provider as a history of operations; the selection of AddAuthEvents; batches through authAndApplyEvents
+        ctx.replay_and_compare("c09prov", prov.result().records)
+        ctx.replay_and_compare("c09sel", join_selection(selr.result()))
+        ctx.replay_and_compare("c09batch", join_batches(batr.result()))
         if ctx.tier == "quick":
             ctx.replay_and_compare("c09", [x for _, recs in sequences(ctx, r) for x in recs])
         else:
@@ -87,7 +157,7 @@ def run(ctx):
             if not pseudo:
                 raise MachineryError("no scenario of room version %s generated for family %s" % (PSEUDO, g))
             ctx.replay_and_compare("c09meta", plain + pseudo)
-    record_sessions(ctx, 6000 if ctx.tier == "quick" else 80000)
+        sessions.result()
 
 
 def record_sessions(ctx, n):
@@ -112,14 +182,20 @@ def record_sessions(ctx, n):
                 again = [x for x in f.read().splitlines() if x.strip()]
             if len(again) >= lineno:
                 r2 = json.loads(again[lineno - 1])
-                if all(r2.get(k) == rec.get(k) for k in ("ver", "st", "ev", "got", "fresh", "sub", "session", "step")):
+                if all(r2.get(k) == rec.get(k) for k in ("ver", "st", "ev", "got", "fresh", "sub", "sel", "pad", "editing", "keep", "session", "step")):
                     kind = ("reused!=fresh" if rec["got"] != rec["fresh"] else
-                            "needed-subset" if rec["got"] != rec["sub"] else "verdict")
+                            "needed-subset" if rec["got"] != rec["sub"] else
+                            "selected-auth-events" if rec["got"] != rec.get("sel", rec["got"]) else "verdict")
                     ctx.disagree("C09/session/%s/%s/reused=%s" % (kind, rec.get("key", "?"), rec["got"]),
                                  "session %d step %d in room version %s (%s): the reused checker says allowed=%s, a fresh Allowed "
-                                 "says %s, a fresh Allowed over exactly the state StateNeededForAuth names says %s; Checker_trace.tla does not explain the line (the verdict must be the specification's "
-                                 "for the event and the state it needs, whatever was checked before)"
-                                 % (rec["session"], rec["step"], rec["ver"], rec.get("key"), rec["got"], rec["fresh"], rec["sub"]),
+                                 "says %s, a fresh Allowed over exactly the state StateNeededForAuth names says %s, another server judging an equivalent "
+                                 "event built with AddAuthEvents over %s against its listed auth events says %s (session: provider padded with "
+                                 "same-type-other-state-key events: %s; accessor results edited between checks: %s; provider not cleared before this "
+                                 "check: %s); Checker_trace.tla does not "
+                                 "explain the line (the verdict must be the specification's for the event and the state it needs, whatever was "
+                                 "checked before)"
+                                 % (rec["session"], rec["step"], rec["ver"], rec.get("key"), rec["got"], rec["fresh"], rec["sub"],
+                                    rec.get("selfrom"), rec.get("sel"), rec.get("pad"), rec.get("editing"), rec.get("keep")),
                                  {"harness": "c09rec", "args": ["-n", lineno, "-seed", ctx.seed], "line": lineno, "record": rec, "count": 1})
                     return
         unreproduced.append(lineno)
